@@ -43,6 +43,12 @@ Theorem c20_lookup_sound : forall (s : fstore) (q : N) (f : frame),
 Proof. exact lookup_sound. Qed.
 Print Assumptions c20_lookup_sound.
 
+(* the same for the positional lookup: index_of_seq answers with the slot of a frame that carries that seq *)
+Theorem c20_index_lookup_sound : forall (s : fstore) (q : N) (i : nat),
+  fs_index_of_seq s q = Some i -> exists f, nth_error (frames s) i = Some f /\ fseq f = q.
+Proof. exact index_lookup_sound. Qed.
+Print Assumptions c20_index_lookup_sound.
+
 Theorem c20_selected_event_sound : forall (s : tui) (f : frame),
   selected_event s = Some f -> st_selected s = Some (fseq f).
 Proof. exact selected_event_sound. Qed.
@@ -53,6 +59,11 @@ Theorem c20_lookup_complete_consecutive : forall (s : fstore) (i : nat) (f : fra
   Consec s -> nth_error (frames s) i = Some f -> fs_get_by_seq s (fseq f) = Some f.
 Proof. exact lookup_complete_consecutive. Qed.
 Print Assumptions c20_lookup_complete_consecutive.
+
+Theorem c20_index_complete_consecutive : forall (s : fstore) (i : nat) (f : frame),
+  Consec s -> nth_error (frames s) i = Some f -> fs_index_of_seq s (fseq f) = Some i.
+Proof. exact index_complete_consecutive. Qed.
+Print Assumptions c20_index_complete_consecutive.
 
 Theorem c20_push_keeps_consecutive : forall (s : fstore) (f : frame),
   Consec s -> (1 <= maxf s)%nat ->
@@ -79,6 +90,14 @@ Theorem c20_unchecked_lookup_refuted :
   exists fs m q f, fs_get_by_seq_unchecked (fold_left fs_push fs (fs_new m)) q = Some f /\ fseq f <> q.
 Proof. exact lookup_unchecked_refuted. Qed.
 Print Assumptions c20_unchecked_lookup_refuted.
+
+(* ... and so is the slot arithmetic `seq - base_seq` without the comparison (index_of_seq before 72a656f, S14b):
+   it points at a frame with another seq *)
+Theorem c20_slot_lookup_refuted :
+  exists fs m q i f, fs_slot_of_seq (fold_left fs_push fs (fs_new m)) q = Some i
+    /\ nth_error (frames (fold_left fs_push fs (fs_new m))) i = Some f /\ fseq f <> q.
+Proof. exact slot_lookup_refuted. Qed.
+Print Assumptions c20_slot_lookup_refuted.
 
 (* headless Output view (rip-cli render_message): for EVERY frame sequence, what is printed up to the
    first session_ended is exactly the concatenation of the text deltas, plus one newline when the
